@@ -468,20 +468,28 @@ class VocabShape(Shape):
         wanted.append(('main', INS_SCOPE, 'instructions', True))
         if p.get('macros'):
             wanted.append(('main', MAC_SCOPE, 'macros', True))
+        # an operation name met in operand position (second statement on the line) ends the operand context: the
+        # rule that closes the context is the first to match it
+        for c in ('instruction-operands',) + (('macro-operands',) if p.get('macros') else ()):
+            wanted.append((c, 'POP', 'instructions', False))
+            if p.get('macros'):
+                wanted.append((c, 'POP', 'macros', False))
         for ed in ('vscode', 'sublime'):
             for cname, scope, cls, bol in wanted:
                 key = f'{ed}.{cname}'
                 tag = f'C20.{key}.{cls}_are_claimed_by_their_own_rule_first'
+                if scope == 'POP':
+                    tag = f'C20.{key}.{cls}_end_the_operand_context'
                 rules = contexts.get(key)
                 if rules is None:
                     obl.append((f'C20.{key}.context_is_emitted', z3.BoolVal(False)))
                     continue
-                idx = next((i for i, r in enumerate(rules) if r[2] == scope), None)
+                idx = next((i for i, r in enumerate(rules) if (r[0] == 'pop' if scope == 'POP' else r[2] == scope)), None)
                 if idx is None:
                     obl.append((tag, z3.BoolVal(False)))
                     continue
                 words, prefix, ci = self.vocab(cls)
-                wname = f'o_{ed}_{cname.replace("-", "_")}_{cls}'
+                wname = f'o_{ed}_{cname.replace("-", "_")}_{cls}' + ('_pop' if scope == 'POP' else '')
                 w = env.string(wname)
                 if env.symbolic:
                     langs = []
